@@ -127,14 +127,26 @@ package parser
 
 //@ func (*PacketDslVisitorImpl).VisitMatchPair
 //@   ensures typeis(result, []model.MatchPair) && len(unbox(result, []model.MatchPair)) >= 1
-//@   loop 0 invariant len(pairs) == rangeindex + 1
-//@   loop 1 invariant len(pairs) >= entry(len(pairs)) && len(pairs) >= rangeindex + 1
+//@   loop 0 invariant rangeindex >= 1 ==> len(pairs) >= 1
 
 //@ func ParseFile
 //@   ensures result1 == nil ==> typeis(result0, *model.BinaryModel) && allocated(unbox(result0, *model.BinaryModel).PacketsMap)
 
 //@ methods (*SyntaxErrorListener)
 //@   requires self != nil
+
+//@ func parseWholeInput
+//@   requires parser != nil && stream != nil && listener != nil
+//@   ensures typeis(result, *gen.PacketContext) && unbox(result, *gen.PacketContext) != nil
+
+//@ func (*PacketDslFormattor).docText
+//@   requires node != nil
+//@ func (*PacketDslFormattor).getCommentsInRange
+//@   requires from >= -1 && from < 281474976710656
+//@ func (*PacketDslFormattor).getCommentsInside
+//@   requires ctx != nil
+//@ func (*PacketDslFormattor).getCommentsBefore
+//@   requires ctx != nil
 
 //@ func RenderToString
 //@   requires validtemplate(tmpl)
@@ -227,6 +239,7 @@ package parser
 
 //@ func FormatPacketDsl
 //@   ensures [C09:error-returns-input] result1 != nil ==> result0 == dsl
+//@   loop 0 decreases len(dsl) + 1 - len(formattor.docLineBreak)
 
 //@ func WriteCodeToFile
 //@   loop 0 iteration-ensures [C16:write-iteration] nfs() == 3 && fskind(0) == "mkdir" && fskind(1) == "create" && fspath(1) == path + "/" + name && fskind(2) == "filewrite" && fspath(2) == path + "/" + name && fsdata(2) == bytestr(datas)
